@@ -54,7 +54,10 @@ namespace opensmt {
         };
         t_State state = S0;
         bool unexpectedSymbol = false;
+        bool denominatorIsZero = false; // becomes true at '/', false again at the first non-zero digit after it
         for (int i = str[0] == '-' ? 1 : 0; str[i] != '\0' and not unexpectedSymbol; i++) {
+            if (str[i] == '/') denominatorIsZero = true;
+            else if (str[i] != '0' and str[i] != '.') denominatorIsZero = false;
             switch (state) {
                 case S0:
                     if (str[i] == '.') state = S2;
@@ -89,7 +92,7 @@ namespace opensmt {
                     break;
             }
         }
-        if (unexpectedSymbol) return false;
+        if (unexpectedSymbol or denominatorIsZero) return false;
         switch (state) {
             case S1:
             case S3:
